@@ -1,4 +1,127 @@
-def run(report, tier):
-    pass
+"""C15 font level: every colour set of size <=3 used as fills / gradient stops of real builds."""
+import itertools
+
+from vmc.core import listing
+from vmc.core.listing import ok, bad
+from vmc.props.c15 import UNIVERSE, o_pal, BLACK
+
+
+def _css(c):
+    r, g, b, a, idx = c
+    s = "#%02X%02X%02X" % (r, g, b)
+    return f"var(--color{idx}, {s})" if idx is not None else s
+
+
+def svgs(cols, v1):
+    """glyph A: one solid shape per colour (+ a gradient over all of them in COLRv1);
+    glyph B: currentColor + the first colour again"""
+    shapes = []
+    for i, c in enumerate(cols):
+        op = f' opacity="{c[3]}"' if c[3] != 1 else ""
+        shapes.append(f'<path d="M{5 + 30 * i},5 L{30 + 30 * i},5 L{30 + 30 * i},40 L{5 + 30 * i},40 Z" fill="{_css(c)}"{op}/>')
+    defs = ""
+    if v1 and len(cols) >= 2:
+        stops = "".join(f'<stop offset="{i / (len(cols) - 1)}" stop-color="{_css(c)}"' + (f' stop-opacity="{c[3]}"' if c[3] != 1 else "") + "/>" for i, c in enumerate(cols))
+        defs = f'<linearGradient id="g" x1="0" y1="0" x2="1" y2="0">{stops}</linearGradient>'
+        shapes.append('<path d="M5,50 L95,50 L95,90 L5,90 Z" fill="url(#g)"/>')
+    a = f'<svg xmlns="http://www.w3.org/2000/svg" viewBox="0 0 100 100"><defs>{defs}</defs>{"".join(shapes)}</svg>'
+    extra = ""
+    if cols:
+        c = cols[0]
+        op = f' opacity="{c[3]}"' if c[3] != 1 else ""
+        extra = f'<path d="M50,50 L90,50 L90,90 L50,90 Z" fill="{_css(c)}"{op}/>'
+    b = ('<svg xmlns="http://www.w3.org/2000/svg" viewBox="0 0 100 100"><defs/>'
+         '<path d="M5,5 L45,5 L45,45 L5,45 Z" fill="currentColor"/>' + extra + "</svg>")
+    return a, b
+
+
 def execute(case):
-    return []
+    from vmc.drive import inproc
+    from vmc.oracles import flatten
+    from vmc.props import common
+
+    cols = [tuple(c) for c in case["colors"]]
+    v1 = case["fmt"].endswith("_1")
+    a, b = svgs(cols, v1)
+    used = {(c[0], c[1], c[2], 1.0 if v1 else c[3], c[4]) for c in cols}
+    exp = o_pal(used)
+    try:
+        cfg, font, data = inproc.build_direct([((0xE000,), a), ((0xE001,), b)], {"color_format": case["fmt"], "output_file": "x.ttf"})
+    except ValueError as e:
+        if exp == "ERR":
+            return [ok("C15.font", "conflict-rejected")]
+        return [bad("C15.font-build", f"ValueError without an index conflict: {e}")]
+    except Exception as e:
+        return [bad("C15.font-build", f"{type(e).__name__}: {e}")]
+    if exp == "ERR":
+        return [bad("C15.conflict-raises", f"conflicting palette indices accepted in a {case['fmt']} build")]
+    out = []
+    cpal = font["CPAL"]
+    if len(cpal.palettes) != 1:
+        out.append(bad("C15.single-palette", f"{len(cpal.palettes)} palettes"))
+    pal = [(c.red, c.green, c.blue, round(c.alpha / 255, 3), None) for c in cpal.palettes[0]]
+    n, byidx, un = exp
+    strip = lambda c: (c[0], c[1], c[2], round(c[3] * 255))  # alpha as the 8-bit value CPAL stores
+    if len(pal) != n:
+        out.append(bad("C15.length", f"palette has {len(pal)} entries, expected {n}: {pal}"))
+    else:
+        for i, c in byidx.items():
+            if strip(pal[i]) != strip(c):
+                out.append(bad("C15.index-honoured", f"entry {i} is {pal[i][:4]}, declared var(--color{i}, {c[:4]})"))
+        free = [i for i in range(n) if i not in byidx]
+        if {strip(pal[i]) for i in free[: len(un)]} != {strip(c) for c in un}:
+            out.append(bad("C15.lowest-free-slots", f"unindexed {sorted(strip(c) for c in un)} vs palette {pal} (indexed {sorted(byidx)})"))
+        if any(strip(pal[i]) != strip(BLACK) for i in free[len(un):]):
+            out.append(bad("C15.gaps-black", f"{pal}"))
+    if v1 and any(p[3] != 1.0 for p in pal):
+        out.append(bad("C15.v1-entries-opaque", f"{pal}"))
+    # every colour a paint uses resolves to the source colour
+    cmap = font.getBestCmap()
+    la = flatten.colr_leaves(font, cmap[0xE000], common.FG)
+    for i, c in enumerate(cols):
+        if i >= len(la):
+            out.append(bad("C15.resolves", f"layer {i} missing"))
+            continue
+        got = la[i].fill_at(la[i].interior(3)[0])
+        expc = (c[0] / 255, c[1] / 255, c[2] / 255, c[3])
+        if max(abs(x - y) for x, y in zip(got, expc)) > 1.5 / 255:
+            out.append(bad("C15.resolves", f"layer {i}: paint resolves to {tuple(round(v, 3) for v in got)}, source colour {tuple(round(v, 3) for v in expc)}"))
+    if v1 and len(cols) >= 2:
+        g = la[len(cols)]
+        pts = g.interior(12)
+        xs = sorted(pts)
+        for p, c in ((xs[0], cols[0]), (xs[-1], cols[-1])):
+            got = g.fill_at(p)
+            expc = (c[0] / 255, c[1] / 255, c[2] / 255, c[3])
+            # the extreme interior probes sit within ~5% of the gradient ends
+            if max(abs(x - y) for x, y in zip(got, expc)) > 0.08 + max(abs(x - y) for x, y in zip((cols[0][0] / 255, cols[0][1] / 255, cols[0][2] / 255, cols[0][3]), (cols[-1][0] / 255, cols[-1][1] / 255, cols[-1][2] / 255, cols[-1][3]))) * 0.12:
+                out.append(bad("C15.resolves", f"gradient stop near x={p[0]:.0f}: {tuple(round(v, 3) for v in got)} vs stop colour {tuple(round(v, 3) for v in expc)}"))
+    # currentColor -> 0xFFFF
+    colr = font["COLR"]
+    if colr.version == 0:
+        first = colr.ColorLayers[cmap[0xE001]][0].colorID
+    else:
+        rec = [r for r in colr.table.BaseGlyphList.BaseGlyphPaintRecord if r.BaseGlyph == cmap[0xE001]][0]
+        p = rec.Paint
+        from fontTools.ttLib.tables.otTables import PaintFormat as PF
+
+        while p.Format != PF.PaintSolid:
+            p = p.getChildren(colr.table)[0]
+        first = p.PaletteIndex
+    if first != 0xFFFF:
+        out.append(bad("C15.current-color", f"currentColor compiled to palette index {first}"))
+    if not out:
+        out.append(ok("C15.font", f"{case['fmt']}:n{n}:idx{len(byidx)}"))
+    return out
+
+
+def run(report, tier):
+    kmax = 3 if tier == "thorough" else 2
+    cases = []
+    for k in range(0, kmax + 1):
+        for S in itertools.combinations(UNIVERSE, k):
+            for fmt in ("glyf_colr_1", "glyf_colr_0"):
+                cases.append({"kind": "font", "colors": [list(c) for c in S], "fmt": fmt})
+    listing.run(report, cases, execute, timeout=120)
+    report.extra["font_level_builds"] = len(cases)
+    report.extra["font_level_max_set_size"] = kmax
